@@ -438,7 +438,7 @@ type Bcast[T any] struct {
 	// OnPayload is invoked (outside the lock) for every payload; used to feed P2P store doubles.
 	OnPayload func(T)
 	// Own is invoked first: the node's own P2P store takes what the node broadcasts (as the real sync service does).
-	Own func(T)
+	Own func(T) error
 }
 
 func (b *Bcast[T]) WriteToStoreAndBroadcast(ctx context.Context, payload T) error {
@@ -449,7 +449,9 @@ func (b *Bcast[T]) WriteToStoreAndBroadcast(ctx context.Context, payload T) erro
 	own := b.Own
 	b.mu.Unlock()
 	if own != nil {
-		own(payload)
+		if err := own(payload); err != nil {
+			return fmt.Errorf("failed to broadcast: %w", err)
+		}
 	}
 	if on != nil {
 		on(payload)
@@ -475,6 +477,8 @@ type P2PStore[H goheader.Header[H]] struct {
 	mu     sync.Mutex
 	items  map[uint64]H
 	height uint64
+	// Strict: see TakeOwn (set on the data store of an aggregator).
+	Strict bool
 }
 
 // NewP2PStore returns an empty store double.
@@ -563,13 +567,36 @@ func (s *P2PStore[H]) HasAt(ctx context.Context, height uint64) bool {
 	return ok
 }
 
-// TakeOwn is what the node's own broadcast does to its P2P store: the item extends the head, or is dropped.
-func (s *P2PStore[H]) TakeOwn(h H) {
+// TakeOwn is what the node's own broadcast does to its P2P store (the real sync service validates a
+// broadcast item against the head of its store): an item that extends the head is stored; a height the store
+// already has is refused ("known header"); an item above head+1 is refused by a Strict store (the data store:
+// Data.Verify demands the link to the head) and ignored by a header store (kept pending, never stored).
+func (s *P2PStore[H]) TakeOwn(h H) error {
 	s.mu.Lock()
 	defer s.mu.Unlock()
-	if s.height == 0 || h.Height() == s.height+1 {
+	switch {
+	case s.height == 0 || h.Height() == s.height+1:
 		s.items[h.Height()] = h
 		s.height = h.Height()
+		return nil
+	case h.Height() <= s.height:
+		return fmt.Errorf("validation failed: known height %d <= head %d", h.Height(), s.height)
+	case s.Strict:
+		return fmt.Errorf("validation failed: height %d does not link to the head %d of the store", h.Height(), s.height)
+	}
+	return nil
+}
+
+// Rewind forgets the k newest items (writes of the store that had not reached the disk when the process died).
+func (s *P2PStore[H]) Rewind(k int) {
+	s.mu.Lock()
+	defer s.mu.Unlock()
+	for ; k > 0 && s.height > 0; k-- {
+		delete(s.items, s.height)
+		s.height--
+		if _, ok := s.items[s.height]; !ok {
+			s.height = 0
+		}
 	}
 }
 
